@@ -114,6 +114,11 @@ def tlc(workdir, module, cfgtext, args=(), timeout=600, env=None, heap=None, nam
     m = re.findall(r"(\d+) states generated, (\d+) distinct states found", out)
     if m:
         res["generated"], res["distinct"] = int(m[-1][0]), int(m[-1][1])
+    else:
+        # interrupted run: take the last progress report
+        m = re.findall(r"([\d,]+) states generated \([^)]*\), ([\d,]+) distinct states found", out)
+        if m:
+            res["generated"], res["distinct"] = int(m[-1][0].replace(",", "")), int(m[-1][1].replace(",", ""))
     m = re.search(r"Error: Invariant (\S+) is violated", out)
     if m:
         res["violated"] = m.group(1)
@@ -475,6 +480,9 @@ def load_known():
 
 
 # ---------------------------------------------------------------- evidence
+REPLAY_MODE = "--replay" in sys.argv
+
+
 def write_evidence(pid, tier, seed, level, coverage, assumptions, wall, violations, extra=None):
     ev = {"property_id": pid, "tier": tier, "seed": seed, "level": level, "coverage": coverage,
           "assumptions": assumptions, "wall_s": round(wall, 2), "violations": violations}
@@ -482,6 +490,9 @@ def write_evidence(pid, tier, seed, level, coverage, assumptions, wall, violatio
         ev.update(extra)
     # (VERIF_EVIDENCE_DIR: only for experiments on scratch copies of the repository, e.g. seeded changes)
     evdir = os.environ.get("VERIF_EVIDENCE_DIR", os.path.join(VERIF, "evidence"))
+    if REPLAY_MODE:
+        # a --replay invocation examines one stored case: it is not a check run and must not replace the evidence of one
+        evdir = os.path.join(VERIF, "out", "replay-evidence")
     os.makedirs(evdir, exist_ok=True)
     with open(os.path.join(evdir, pid + ".json"), "w") as f:
         json.dump(ev, f, indent=1)
